@@ -153,6 +153,8 @@ mod opaque;
 mod pinned;
 #[cfg(test)]
 mod thread_safety_types;
+#[cfg(folo_verif)]
+pub mod verif;
 
 pub use blind::*;
 pub use builders::*;
